@@ -984,8 +984,18 @@ func genPool() *rapid.Generator[[]string] {
 				switch rapid.SampledFrom(genSegs).Draw(t, "seg") {
 				case "{}":
 					name := fmt.Sprintf("%s%d", fam, i+1)
-					if rapid.IntRange(0, 59).Draw(t, "clash") == 0 {
+					// now and then another name at a position an earlier pattern may have named already: such a set
+					// of declarations is refused (the model says so as well) - an entirely different name, or the
+					// same name in another letter case ({p1} / {P1}: names are compared as written)
+					switch rapid.IntRange(0, 39).Draw(t, "clash") {
+					case 0:
 						name = "q"
+					case 1:
+						if up := strings.ToUpper(name); up != name {
+							name = up
+						} else {
+							name = strings.ToLower(name)
+						}
 					}
 					s = "{" + name + "}"
 				case "other":
